@@ -107,7 +107,9 @@ type SymEval struct {
 	Subs []*ssa.BinOp
 	// MinArithBits is the smallest bit width of an integer addition/subtraction/multiplication met (0 = none).
 	MinArithBits int
-	pv           Prov
+	// Atoms maps every symbol produced to the value it names (filled during evaluation).
+	Atoms map[string]ssa.Value
+	pv    Prov
 }
 
 func isUnsigned(t types.Type) bool {
@@ -117,6 +119,19 @@ func isUnsigned(t types.Type) bool {
 
 // atom names a non-arithmetic value: by provenance when it has exactly one leaf, else by identity.
 func (e *SymEval) atom(v ssa.Value) Lin {
+	l := e.atom0(v)
+	if e.Atoms == nil {
+		e.Atoms = map[string]ssa.Value{}
+	}
+	for sym := range l.Terms {
+		if _, ok := e.Atoms[sym]; !ok {
+			e.Atoms[sym] = v
+		}
+	}
+	return l
+}
+
+func (e *SymEval) atom0(v ssa.Value) Lin {
 	if e.Name != nil {
 		if s := e.Name(v); s != "" {
 			return Sym(s)
